@@ -113,6 +113,22 @@ class Report:
     def error(self, msg):
         self.errors.append(msg)
 
+    def run(self, fn, *a, **k):
+        """Runs one contract module.  An exception escaping from it means the code under contract no longer behaves in a way the
+        contract can even be evaluated on (on the unchanged tree every module completes): reported as an undischarged obligation."""
+        try:
+            return fn(*a, **k)
+        except CheckerError:
+            raise
+        except Exception as e:
+            import traceback
+            tb = traceback.extract_tb(e.__traceback__)
+            where = next((f"{fr.filename}:{fr.lineno}" for fr in reversed(tb) if REPO in fr.filename), f"{tb[-1].filename}:{tb[-1].lineno}")
+            name = f"{fn.__module__}.{fn.__name__}:contract-evaluation"
+            self.obligation(name, False, "-", 0, "harness")
+            self.violation(name, type(e).__name__, f"evaluating the contract raised {type(e).__name__}: {str(e)[:160]} at {where} - the code under contract left the shape the contract is stated for",
+                           witness=False, solver_output="".join(traceback.format_exception_only(type(e), e))[:400])
+
     def violation(self, obligation, case, what, replay=None, witness=True, solver_output=None):
         """A failed obligation.  `case` is a canonical, solver-independent key."""
         for k in self.known.get("findings", []):
